@@ -112,6 +112,13 @@ def evaluate(case, leaf_budget=None):
     except exact.Inconclusive as e:
         return Outcome(nontrivial=False, classes=("inconclusive:%s" % e,), weight=0)
     resid = exact.check_invariance(pi, K, keys, mts, component, tags, TOL)
+    runloop = False
+    if case.get("wiring") == "run" and n <= 2 and case["N"] == 2 and case.get("prev_alpha") is None:
+        try:
+            leaves += _run_loop(world, case, keys, mts, trees, K, component, tags, 40000)
+            runloop = True
+        except exact.Inconclusive:
+            pass
     support = int((pi > 1e-300).sum())
     classes = [
         "combo:%s/%s/%s" % (case["proposal"], case.get("wiring", "library"), "out" if out else "noout"),
@@ -125,12 +132,69 @@ def evaluate(case, leaf_budget=None):
         classes.append("ess-threshold-tie-neutralised")
     if case.get("prev_alpha") is not None:
         classes.append("alpha-changed-in-place-before")
+    if runloop:
+        classes.append("run-loop-with-concentration-update")
     return Outcome(
         nontrivial=support >= 2 and resamples > 0,
         classes=tuple(classes),
         info=dict(case={k: v for k, v in case.items() if k not in ("rep", "rep_row")}, states=len(keys), leaves=leaves, residual=resid),
         weight=leaves,
     )
+
+
+def _run_loop(world, case, keys, mts, trees, K0, component, tags, leaf_budget):
+    """The whole-tree update inside the run command's main loop, across a concentration update: two iterations of
+    run._run_main_sampler (data-point and prune-regraft moves switched off, concentration sampler replaced by a stub
+    that returns a fixed new value) must equal K_pg(alpha0) @ K_pg(alpha1): after the update the particle Gibbs step
+    has to target the posterior under the NEW concentration value, which is also what the trace records."""
+    import contextlib
+    import io
+
+    import phyclone.run as prun
+    from phyclone.tree import Tree
+    from phyclone.utils import Timer
+
+    td, rng, holder = world["tree_dist"], world["rng"], world["samplers"]
+    a0 = float(case["alpha"])
+    a1 = [3.0, 0.3, 1.7][case.get("warm_at", 0) % 3] if a0 != 3.0 else 0.5
+    data = [world["data"][i] for i in sorted(world["data"])]
+    sampler = holder.tree_sampler
+
+    class Stub:
+        def sample(self, old, k, nn):
+            return a1
+
+    real = holder.conc_sampler
+    comp = component + "/run-loop"
+    try:
+        td.prior.alpha = a1
+        K1, l1 = exact.transition_matrix(sampler.sample_tree, keys, trees, rng, comp, tags, leaf_budget)
+        td.prior.alpha = a0
+        holder.conc_sampler = Stub()
+        recorded = []
+
+        def two_iters(tree):
+            td.prior.alpha = a0
+            with contextlib.redirect_stdout(io.StringIO()):
+                res = prun._run_main_sampler(True, data, float("inf"), 2, 0, 0, 10 ** 9, holder, ["s"], 1, Timer(), tree, td, 0, rng, 0.0)
+            tr = res["trace"]
+            if len(recorded) < 4:
+                recorded.append([float(e["alpha"]) for e in tr])
+            return Tree.from_dict(tr[-1]["tree"])
+
+        K2, l2 = exact.transition_matrix(two_iters, keys, trees, rng, comp, tags, leaf_budget)
+    finally:
+        holder.conc_sampler = real
+        td.prior.alpha = a0
+    expected = K0 @ K1
+    d = float(np.abs(K2 - expected).max())
+    if d > 1e-9:
+        i, j = np.unravel_index(np.abs(K2 - expected).argmax(), K2.shape)
+        raise Violation(comp, "two run-loop iterations across a concentration update (%.3g -> %.3g) differ from K_pg(%.3g) K_pg(%.3g) by %.3e at %r -> %r: the tree update does not use the updated concentration" % (a0, a1, a0, a1, d, mts[i], mts[j]), dict(tags, residual=d))
+    for al in recorded:
+        if al[0] != a0 or any(x != a1 for x in al[1:]):
+            raise Violation(comp + "/recorded-alpha", "trace records concentration values %r, expected %r then %r" % (al, a0, a1), tags)
+    return l1 + l2
 
 
 def shrink_candidates(case):
